@@ -32,8 +32,12 @@ MANIFEST = dict(
          "every node carry separate origins or are exactly a state and its relay; zipped fields have equal length; the "
          "combiner names whole zip groups; no node with a combiner keeps a zip group open. Outside the class (compared "
          "with the spec only, failures are known findings F03 shared origin, F03y partly named zip group, F03z inherited "
-         "F02): everything else. C03_refuted: the full statement is false (diamond, F03). Not modelled: explicit _Node "
-         "references / inner pairing of two upstream states, re-splitting of lazy outputs, container_ndim. The model is "
+         "F02): everything else. Explicit inner pairing (\"_A\",\"_B\") of two upstream states with one open axis each is "
+         "modelled and specified (aligned by position, unequal lengths rejected) and generated in ~8% of the cases, but "
+         "NOT proved: such nodes are outside c03_class3 and are compared with model and spec differentially only "
+         "(C03_partial3 merely carries C03_partial2 over to the observable functions model_run3/spec_run3). C03_refuted: "
+         "the full statement is false (diamond, F03). Not modelled: other explicit _Node references, pairing of states with "
+         "several open axes, re-splitting of lazy outputs, container_ndim. The model is "
          "tied to the code by running generated workflows with injective tagging tasks through the debug worker (a share "
          "under the cf worker) and evaluating model and spec on the same descriptions inside Coq (vm_compute).",
     note="Trusted: Coq kernel + vm_compute; the hand-written model (leaf sequences instead of RPN for all-outer "
@@ -43,7 +47,7 @@ MANIFEST = dict(
               "+ model/impl/spec correspondence via generated cases.v",
     design="§8 Group A / C03",
 )
-TIE_NAME = "Model.StateWf.model_run2 vs pydra Submitter(worker='debug') on the generated workflow (all node outputs)"
+TIE_NAME = "Model.StateWf.model_run3 vs pydra Submitter(worker='debug') on the generated workflow (all node outputs)"
 TRUSTED = [
     "Model/StateWf.v: hand-written model of Node._get_upstream_states/_set_state, Workflow._create_graph -> "
     "State.update_connections, _complete_prev_state, _remove_repeated, _add_state_history, prepare_states_ind, "
@@ -56,7 +60,9 @@ TRUSTED = [
     "modelled, not verified (second pass): a zip group is represented by its first field (leader): the other fields "
     "carry the same index by construction; combiner closure (combiner_all) = replacing names by leaders (normalize); "
     "per-job output-field selection commutes with list building (outsel); a nested-workflow node is an opaque node",
-    "not modelled: explicit '_Node' splitter references (incl. inner pairing of two upstream states), splitting over a "
+    "differential only (no theorem): Model.build_pair / Spec.spec_entry_pair for a node pairing two upstream states "
+    "(\"_A\",\"_B\") that have one open axis each",
+    "not modelled: other explicit '_Node' splitter references, pairing of states with several open axes, splitting over a "
     "lazy output, container_ndim, StateArray typing; remove_inp_from_splitter_rpn's defect on open inner pairs (F03z)",
 ]
 ASSUMPTIONS = [
@@ -115,7 +121,11 @@ def build(case):
                 for l in nd["split"]:
                     g = [FN[l]] + [FN[f] for f, l2 in nd.get("zip", []) if l2 == l]
                     groups.append(g[0] if len(g) == 1 else tuple(g))
+                if nd.get("pair"):                 # explicit inner pairing of the two upstream states
+                    groups = [tuple("_N%d" % x for x in nd["pair"])] + groups
                 t = t.split(groups[0] if len(groups) == 1 else groups, **sp)
+            elif nd.get("pair"):
+                t = t.split(tuple("_N%d" % x for x in nd["pair"]))
             if nd["comb"]:
                 t = t.combine([FN[f] if n == i else "N%d.%s" % (n, FN[f]) for n, f in nd["comb"]])
             lzn = workflow.add(t, name="N%d" % i)
@@ -393,10 +403,41 @@ def gen_family(rng):
     return finish(nodes, rng, 0.0)
 
 
+def gen_pair(rng):
+    """N_a, N_b with one open axis each (possibly after a combiner), a node pairing them ("_Na", "_Nb"), optional consumers"""
+    n = rng.choice([1, 2, 2, 3])
+    m = n if rng.random() < 0.85 else n + 1          # unequal lengths must be rejected
+    def src(k, length):
+        fields = [["split", [rng.randrange(100) for _ in range(length)]]]
+        nd = dict(fields=fields, split=[0], zip=[], comb=[], nested=False, late=[])
+        if rng.random() < 0.3:                        # a second axis, combined away
+            fields.append(["split", [rng.randrange(100) for _ in range(rng.choice([1, 2]))]])
+            nd["split"] = [0, 1] if rng.random() < 0.5 else [1, 0]
+            nd["comb"] = [[k, 1]]
+        return nd
+    nodes = [src(0, n), src(1, m)]
+    fl = [["up", 0, rng.choice([0, 1])], ["up", 1, rng.choice([0, 1])]]
+    if rng.random() < 0.5:
+        fl.reverse()
+    d = dict(fields=fl, split=[], zip=[], comb=[], nested=False, late=[], pair=[fl[0][1], fl[1][1]])
+    if rng.random() < 0.4:
+        d["fields"].append(["split", [rng.randrange(100) for _ in range(rng.choice([1, 2]))]])
+        d["split"] = [2]
+    nodes.append(d)
+    r = rng.random()
+    if r < 0.35:
+        nodes.append(dict(fields=[["up", 2, rng.choice([0, 1])]], split=[], zip=[], comb=[], nested=False, late=[]))
+    elif r < 0.6:                                     # the consumer combines the paired axis, naming both fields
+        comb = [[0, 0], [1, 0]]
+        rng.shuffle(comb)
+        nodes.append(dict(fields=[["up", 2, 0], ["const", 5]], split=[], zip=[], comb=comb, nested=False, late=[]))
+    return dict(nodes=nodes)
+
+
 def gen_case(rng):
     for _ in range(200):
         r = rng.random()
-        case = gen_random(rng) if r < 0.45 else gen_tree(rng) if r < 0.75 else gen_family(rng)
+        case = gen_pair(rng) if r < 0.08 else gen_random(rng) if r < 0.45 else gen_tree(rng) if r < 0.75 else gen_family(rng)
         for i, nd in enumerate(case["nodes"]):      # families set combiners after finish(): keep late wiring legal
             if nd.get("late") and any(k[0] != i for k in nd["comb"]):
                 nd["late"] = []
@@ -439,6 +480,13 @@ def enc_wf(case):
     return coqio.lst(nodes)
 
 
+def enc_wf3(case):
+    """list (node * bool): the node descriptions with the explicit-pairing flag beside them"""
+    inner = enc_wf(case)
+    flags = coqio.lst([coqio.boolean(bool(nd.get("pair"))) for nd in case["nodes"]])
+    return "(combine %s %s)" % (inner, flags)
+
+
 def enc_val(v):
     if isinstance(v, int):
         return "VInt %s" % coqio.z(v)
@@ -457,24 +505,30 @@ def enc_obs(o):
 
 EXTRA = """
 Definition obs_eqb (a b : option (list val)) : bool := option_eqb (list_eqb val_eqb) a b.
-Definition case_t := (workflow * option (list val))%type.
-Definition spec_ok (c : case_t) : bool := obs_eqb (snd c) (spec_run2 (fst c)).
+Definition case_t := (workflow3 * option (list val))%type.
+Definition wf_of (c : case_t) : workflow := map fst (fst c).
+Definition spec_ok (c : case_t) : bool := obs_eqb (snd c) (spec_run3 (fst c)).
 (* inside the proved class the implementation must behave like the model; outside it (the refuted region) it
-   may behave like the model or like the spec, and the model is only claimed for combiner-free workflows *)
+   may behave like the model or like the spec, and the model is only claimed for combiner-free workflows and for
+   supported explicit pairings (differential only) *)
 Definition tie_ok (c : case_t) : bool :=
   let '(w, o) := c in
-  if c03_class2 w then obs_eqb o (model_run2 w)
-  else if tie_region w then obs_eqb o (model_run2 w) || spec_ok c else true.
-Definition out_domain (c : case_t) : bool := negb (c03_class2 (fst c)).
-Definition not_wf (c : case_t) : bool := wf_ok (normalize (fst c)).
-Definition cls_share (c : case_t) : bool := share_class (normalize (fst c)).
-Definition cls_zipcomb (c : case_t) : bool := zipcomb_class (normalize (fst c)).
-Definition cls_ziplen (c : case_t) : bool := zip_len_ok (fst c).
-Definition cls_closed (c : case_t) : bool := comb_closed_class (fst c).
-Definition model_is_spec (c : case_t) : bool := obs_eqb (model_run2 (fst c)) (spec_run2 (fst c)).
+  if c03_class3 w then obs_eqb o (model_run3 w)
+  else if has_pair w then (if pair_supported w then obs_eqb o (model_run3 w) else true)
+  else if tie_region (map fst w) then obs_eqb o (model_run3 w) || spec_ok c else true.
+Definition out_domain (c : case_t) : bool := negb (c03_class3 (fst c)).
+Definition not_wf (c : case_t) : bool := has_pair (fst c) || wf_ok (normalize (wf_of c)).
+Definition cls_share (c : case_t) : bool := has_pair (fst c) || share_class (normalize (wf_of c)).
+Definition cls_zipcomb (c : case_t) : bool := has_pair (fst c) || zipcomb_class (normalize (wf_of c)).
+Definition cls_ziplen (c : case_t) : bool := zip_len_ok (wf_of c).
+Definition cls_closed (c : case_t) : bool := comb_closed_class (wf_of c).
+Definition no_pair (c : case_t) : bool := negb (has_pair (fst c)).
+Definition pair_unsupported (c : case_t) : bool := negb (has_pair (fst c)) || pair_supported (fst c).
+Definition model_is_spec (c : case_t) : bool := obs_eqb (model_run3 (fst c)) (spec_run3 (fst c)).
 """
 CHECKS = {"tie": "tie_ok", "spec": "spec_ok", "in_domain": "out_domain", "ill_formed": "not_wf",
-          "share": "cls_share", "zipcomb": "cls_zipcomb", "ziplen": "cls_ziplen", "comb_closed": "cls_closed", "model_ne_spec": "model_is_spec"}
+          "share": "cls_share", "zipcomb": "cls_zipcomb", "ziplen": "cls_ziplen", "comb_closed": "cls_closed", "model_ne_spec": "model_is_spec",
+          "with_pair": "no_pair", "pair_unsupported": "pair_unsupported"}
 
 
 def short(v):
@@ -522,7 +576,7 @@ def run(ctx):
     t0 = time.time()
     obs = run_impl(cases, nproc=4 if ctx.tier == "quick" else 6)
     t_impl = time.time() - t0
-    terms = [coqio.pair(enc_wf(c), enc_obs(o)) for c, o in zip(cases, obs)]
+    terms = [coqio.pair(enc_wf3(c), enc_obs(o)) for c, o in zip(cases, obs)]
     t0 = time.time()
     res = coqio.run_cases(ctx.scratch, "c03", IMPORTS, "case_t", terms, CHECKS, extra=EXTRA, shard=120)
     t_coq = time.time() - t0
@@ -534,6 +588,8 @@ def run(ctx):
     dist.update(fan_in=0, with_combiner=0, with_empty_list=0, impl_raised=0, in_proved_class=len(res["in_domain"]))
     dist["zip_shape_mismatch"] = len(res["ziplen"])
     dist["class_zipcomb_violated"] = len(res["zipcomb"])
+    dist["with_explicit_pairing"] = len(res["with_pair"])
+    dist["explicit_pairing_unsupported"] = len(res["pair_unsupported"])
     dist["class_comb_closed_violated"] = len(res["comb_closed"])
     dist["class_share_violated"] = len(res["share"])
     dist["model_differs_from_spec"] = len(res["model_ne_spec"])
@@ -560,11 +616,11 @@ def run(ctx):
                          "proved_class_fraction": round(len(res["in_domain"]) / max(len(cases), 1), 3)})
 
     # model / spec values of the failing cases, printed by one coqc run
-    want = [(i, "spec_run2") for i in sorted(res["spec"])[:60]] + [(i, "model_run2") for i in sorted(res["tie"])[:20]]
+    want = [(i, "spec_run3") for i in sorted(res["spec"])[:60]] + [(i, "model_run3") for i in sorted(res["tie"])[:20]]
     vals = {}
     if want:
         try:
-            got = coqio.eval_terms(ctx.scratch, "expected", IMPORTS, ["%s %s" % (w, enc_wf(cases[i])) for i, w in want])
+            got = coqio.eval_terms(ctx.scratch, "expected", IMPORTS, ["%s %s" % (w, enc_wf3(cases[i])) for i, w in want])
             vals = dict(zip(want, got))
         except Exception as e:       # pragma: no cover
             vals = {k: "coq evaluation failed: %s" % e for k in want}
@@ -573,10 +629,10 @@ def run(ctx):
         in_dom = i in res["in_domain"]
         note = ("implementation differs from the nested-loop evaluation" +
                 (" inside the proved class" if in_dom else " (input class of %s)" % fid if fid else ""))
-        out.failures.append(Failure(case=cases[i], observed=show_obs(obs[i]), expected=vals.get((i, "spec_run2"), "(not printed)"),
+        out.failures.append(Failure(case=cases[i], observed=show_obs(obs[i]), expected=vals.get((i, "spec_run3"), "(not printed)"),
                                     kind="spec", finding=None if in_dom else fid, note=note))
     for i in sorted(res["tie"])[:20]:
-        out.failures.append(Failure(case=cases[i], observed=show_obs(obs[i]), expected=vals.get((i, "model_run2")),
+        out.failures.append(Failure(case=cases[i], observed=show_obs(obs[i]), expected=vals.get((i, "model_run3")),
                                     kind="tie", note="model/implementation" +
                                     (" inside the proved class" if i in res["in_domain"] else " outside the proved class")))
     return out
@@ -588,7 +644,7 @@ def replay(ctx, payload):
     print("workflow      :", json.dumps(case))
     print("implementation:", show_obs(o))
     vals = coqio.eval_terms(ctx.scratch, "replay", IMPORTS,
-                            ["model_run2 %s" % enc_wf(case), "spec_run2 %s" % enc_wf(case),
+                            ["model_run3 %s" % enc_wf3(case), "spec_run3 %s" % enc_wf3(case),
                              "(c03_class2 %s, share_class (normalize %s), zipcomb_class (normalize %s), zip_len_ok %s)" % ((enc_wf(case),) * 4)])
     print("model         :", vals[0])
     print("spec          :", vals[1])
